@@ -9,7 +9,7 @@ import (
 
 // Shapes lists every data shape known to the generator.
 var Shapes = []string{"random", "text", "utf8", "utf8wide", "dna", "dnalines", "exe", "wav", "bmp",
-	"runs", "smallalpha", "skew", "zeros", "gzipmagic", "mixed", "ramp", "numeric", "html", "sparse"}
+	"runs", "smallalpha", "skew", "zeros", "gzipmagic", "mixed", "ramp", "numeric", "html", "sparse", "x86"}
 
 var words = strings.Fields(`the of and to in is that it was for on are as with his they be at one have this from
 or had by hot word but what some we can out other were all there when up use your how said an each she which do
@@ -138,6 +138,32 @@ func Make(shape string, seed int64, n int) []byte {
 				b = append(b, 0x55, 0x48, 0x8B, 0xEC)
 			default:
 				b = append(b, 0x90, byte(r.Intn(256)))
+			}
+		}
+	case "x86":
+		// code-like bytes without any header: relative calls and jumps every few instructions, enough 0x00 / 0xFF
+		// bytes to pass the executable heuristics of the EXE transform
+		for len(b) < n {
+			switch r.Intn(10) {
+			case 0, 1:
+				off := r.Intn(1 << 14)
+				if r.Intn(3) == 0 {
+					off = -off
+				}
+				var a [4]byte
+				binary.LittleEndian.PutUint32(a[:], uint32(off))
+				b = append(b, byte(0xE8+r.Intn(2)))
+				b = append(b, a[:]...)
+			case 2:
+				b = append(b, 0x0F, byte(0x80+r.Intn(16)), byte(r.Intn(256)), byte(r.Intn(16)), 0, 0)
+			case 3, 4:
+				b = append(b, 0x48, 0x8B, byte(r.Intn(256)), 0x00, 0x00, 0x00)
+			case 5:
+				b = append(b, 0xFF, byte(r.Intn(256)), 0xFF, 0xFF)
+			default:
+				for k := r.Intn(8); k >= 0; k-- {
+					b = append(b, byte(16+r.Intn(240)))
+				}
 			}
 		}
 	case "wav":
